@@ -186,6 +186,27 @@ class StmtMixin:
                 st.heap[base.oid].fields[target.attr] = v
             else:
                 raise Unsupported(f"attribute store on {base!r}", target)
+        elif isinstance(target, ast.Subscript) and (isinstance(target.slice, ast.Slice) or
+                                                    (isinstance(target.slice, ast.Tuple) and any(isinstance(e, ast.Slice) for e in target.slice.elts))):
+            rb = self.ev(target.value, st)
+            if len(rb) != 1:
+                raise Unsupported("forking subscript target", target)
+            base = self.deref(rb[0][1], st)
+            parts = target.slice.elts if isinstance(target.slice, ast.Tuple) else [target.slice]
+            vals = []
+            for p_ in parts:
+                if isinstance(p_, ast.Slice):
+                    lo = self.ev1_code(p_.lower, st) if p_.lower is not None else NONEV
+                    hi = self.ev1_code(p_.upper, st) if p_.upper is not None else NONEV
+                    vals.append(VTuple([VStr("slice"), lo, hi]))
+                elif isinstance(p_, ast.Constant) and p_.value is Ellipsis:
+                    vals.append(VStr("..."))
+                else:
+                    vals.append(self.ev1_code(p_, st))
+            if isinstance(base, VAbs):
+                base.call_method("__setitem__", [VTuple(vals), v], {}, st, self)
+            else:
+                raise Unsupported("slice assignment on a non-abstract value", target)
         elif isinstance(target, ast.Subscript):
             res = self.ev_seq([target.value, target.slice], st)
             if len(res) != 1:
@@ -211,6 +232,12 @@ class StmtMixin:
                 raise Unsupported(f"subscript store on {payload!r}", target)
         else:
             raise Unsupported("assignment target", target)
+
+    def ev1_code(self, node, st):
+        r = self.ev(node, st)
+        if len(r) != 1:
+            raise Unsupported("forking index expression", node)
+        return r[0][1]
 
     def st_If(self, node, st):
         out = []
